@@ -50,7 +50,7 @@ def calls_for(kind, reduced=False):
         add("min", one(vals + W))
         add("max", one(vals + W))
     elif kind == "float":
-        vals = [0.0, 1.0, -1.0, 0.5, 2.5, float("inf"), float("-inf"), 1e308]
+        vals = [0.0, 1.0, -1.0, 0.5, 2.5, float("inf"), float("-inf"), 1e308, 0.3, 0.1 + 0.2, math.nextafter(1.0, 2.0)]
         add("__call__", one(vals + W))
         add("min", one(vals + W))
         add("max", one(vals + W))
